@@ -69,10 +69,16 @@ CONSTANTS Universe,      \* set of records the BMC may hold
           LastIndex,     \* largest list index the request can express (3Fh on the wire; smaller in bounded models)
           G_Bound,       \* stop after the chunk at LastIndex (FALSE: one request more, whose index wraps to 0 on the wire)
           G_ShortStop,   \* stop at the first chunk shorter than 16 bytes
-          G_Concat       \* concatenate chunks before parsing (records may straddle chunks)
+          G_Concat,      \* concatenate chunks before parsing (records may straddle chunks)
+          Refusals,      \* list indices at which the BMC may refuse the request once (-1: never), during the first discovery
+          G_ErrorOnRefusal, \* a refused chunk request fails the discovery (FALSE: it is taken for the end of the list)
+          G_FreshBuffer, \* each discovery starts with an empty buffer (FALSE: kept on the connection, emptied only after a parse)
+          G_FreshIndex   \* each discovery starts at list index 0 (FALSE: the request is kept on the connection)
 
-VARIABLES recs, corrupt, data, idx, acc, pc, nreq, result
-vars == <<recs, corrupt, data, idx, acc, pc, nreq, result>>
+VARIABLES recs, corrupt, data, idx, acc, pc, nreq, result,
+          attempt,       \* 1: first discovery on the connection, 2: the one after it
+          refuseAt, refused
+vars == <<recs, corrupt, data, idx, acc, pc, nreq, result, attempt, refuseAt, refused>>
 
 RECURSIVE SeqsUpTo(_, _)
 SeqsUpTo(S, n) == IF n = 0 THEN {<<>>} ELSE SeqsUpTo(S, n - 1) \cup {Append(s, x) : s \in {t \in SeqsUpTo(S, n - 1) : Len(t) = n - 1}, x \in S}
@@ -88,26 +94,39 @@ Init == /\ recs \in SeqsUpTo(Universe, MaxRecs) /\ corrupt \in Corruptions
         /\ data = Corrupt(DataOf(recs), corrupt)
         /\ Len(data) <= 16 * (LastIndex + 1)                 \* all the protocol can address
         /\ idx = 0 /\ acc = <<>> /\ pc = "fetch" /\ nreq = 0 /\ result = PErr
+        /\ attempt = 1 /\ refuseAt \in Refusals /\ refused = FALSE
 
 Chunk(i) == SubSeq(data, 16 * i + 1, IF 16 * i + 16 < Len(data) THEN 16 * i + 16 ELSE Len(data))
-Fetch == /\ pc = "fetch"
+\* the BMC answers the request for list index refuseAt with a permanent completion code (first discovery only)
+Refusal == /\ pc = "fetch" /\ attempt = 1 /\ idx = refuseAt
+           /\ nreq' = nreq + 1 /\ refused' = TRUE
+           /\ IF G_ErrorOnRefusal THEN result' = PErr /\ pc' = "done" ELSE result' = result /\ pc' = "parse"
+           /\ UNCHANGED <<recs, corrupt, data, idx, acc, attempt, refuseAt>>
+Fetch == /\ pc = "fetch" /\ ~(attempt = 1 /\ idx = refuseAt)
          /\ LET c == Chunk(idx % (LastIndex + 1)) IN                 \* the index field holds idx modulo its range
             /\ acc' = IF G_Concat THEN acc \o c ELSE c
             /\ nreq' = nreq + 1
             /\ IF (G_Bound /\ idx = LastIndex) \/ (~G_Bound /\ idx = LastIndex + 1) \/ (G_ShortStop /\ Len(c) < 16) \/ (~G_ShortStop /\ c = <<>>)
                THEN pc' = "parse" /\ idx' = idx
                ELSE pc' = "fetch" /\ idx' = idx + 1
-         /\ UNCHANGED <<recs, corrupt, data, result>>
+         /\ UNCHANGED <<recs, corrupt, data, result, attempt, refuseAt, refused>>
 Parse == /\ pc = "parse" /\ result' = ParseAll(acc) /\ pc' = "done"
-         /\ UNCHANGED <<recs, corrupt, data, idx, acc, nreq>>
-Next == Fetch \/ Parse
+         /\ UNCHANGED <<recs, corrupt, data, idx, acc, nreq, attempt, refuseAt, refused>>
+\* the caller discovers again on the same connection (a second establishment, or a retry after the failed one)
+Again == /\ pc = "done" /\ attempt = 1
+         /\ attempt' = 2 /\ pc' = "fetch" /\ nreq' = 0 /\ refused' = FALSE /\ result' = PErr
+         /\ idx' = IF G_FreshIndex THEN 0 ELSE idx
+         \* a buffer kept on the connection is emptied after a parse, but not on the error return of a refused request
+         /\ acc' = IF G_FreshBuffer \/ ~(refused /\ G_ErrorOnRefusal) THEN <<>> ELSE acc
+         /\ UNCHANGED <<recs, corrupt, data, refuseAt>>
+Next == Fetch \/ Refusal \/ Parse \/ Again
 Spec == Init /\ [][Next]_vars /\ WF_vars(Next)
 
 \* ------------------------------------------------------------------ properties
 Done == pc = "done"
-C16_AllRecordsExpandedInOrder == (Done /\ corrupt = "none") => (result.ok /\ result.v = ExpandAll(recs))
-C16_MalformedGivesErrorNotPartial == (Done /\ corrupt # "none") => (~result.ok /\ result.v = <<>>)
-C16_StopsAtShortChunkInclExactMultiple == Done => nreq = IF Len(data) = 16 * (LastIndex + 1) THEN LastIndex + 1 ELSE (Len(data) \div 16) + 1
-C16_Terminates == <>Done
+C16_AllRecordsExpandedInOrder == (Done /\ ~refused /\ corrupt = "none") => (result.ok /\ result.v = ExpandAll(recs))
+C16_MalformedGivesErrorNotPartial == (Done /\ (refused \/ corrupt # "none")) => (~result.ok /\ result.v = <<>>)
+C16_StopsAtShortChunkInclExactMultiple == (Done /\ ~refused) => nreq = IF Len(data) = 16 * (LastIndex + 1) THEN LastIndex + 1 ELSE (Len(data) \div 16) + 1
+C16_Terminates == <>(Done /\ attempt = 2)
 \* selection: the proposal is the caller's first preference among the advertised suites (exhaustive below)
 =============================================================================
